@@ -7,6 +7,7 @@ import (
 	"net/netip"
 	"strconv"
 	"strings"
+	"time"
 
 	cedar "github.com/cedar-policy/cedar-go"
 	"github.com/cedar-policy/cedar-go/types"
@@ -133,6 +134,32 @@ func opConstruct(c Obj) J {
 			out[k] = Obj{"new": guardJ(func() J {
 				d, err := types.NewDurationFromMillis(ms).Duration()
 				return cwf.ResultToJ(types.Long(int64(d)), err)
+			})}
+		}
+		return out
+	case "Duration.ToDays", "Duration.ToHours", "Duration.ToMinutes", "Duration.ToSeconds", "Duration.ToMilliseconds", "NewDuration", "Datetime.Time":
+		is, _ := c["is"].([]any)
+		out := make([]any, len(is))
+		for k, ij := range is {
+			x := must(cwf.JToI64(ij))
+			out[k] = Obj{"new": guardJ(func() J {
+				d := types.NewDurationFromMillis(x)
+				switch fn {
+				case "Duration.ToDays":
+					return cwf.ResultToJ(types.Long(d.ToDays()), nil)
+				case "Duration.ToHours":
+					return cwf.ResultToJ(types.Long(d.ToHours()), nil)
+				case "Duration.ToMinutes":
+					return cwf.ResultToJ(types.Long(d.ToMinutes()), nil)
+				case "Duration.ToSeconds":
+					return cwf.ResultToJ(types.Long(d.ToSeconds()), nil)
+				case "Duration.ToMilliseconds":
+					return cwf.ResultToJ(types.Long(d.ToMilliseconds()), nil)
+				case "NewDuration": // x is a count of nanoseconds
+					return cwf.ResultToJ(types.NewDuration(time.Duration(x)), nil)
+				default: // through time.Time and back
+					return cwf.ResultToJ(types.NewDatetime(types.NewDatetimeFromMillis(x).Time()), nil)
+				}
 			})}
 		}
 		return out
